@@ -191,4 +191,9 @@ def runeStartsFrom : Nat → Nat → List (BitVec 8) → List (BitVec 64)
 /-- the values of `i` in `for i := range s` for the string with bytes `s` -/
 def runeStarts (s : List (BitVec 8)) : List (BitVec 64) := runeStartsFrom s.length 0 s
 
+/-- `x << n` evaluated without building the intermediate `x.toNat <<< n` (which Lean's runtime refuses for huge `n`):
+equal to `x <<< n` (`Iota/Tie/GoFlow.lean`: `shl_eq`).  The translator only emits it when asked to
+(EXTRACT_SAFE_SHL=1, used by the random differential test of the translator, which shifts by counts up to 2^64). -/
+def shl {w : Nat} (x : BitVec w) (n : Nat) : BitVec w := if w ≤ n then 0#w else x <<< n
+
 end Iota.Go
